@@ -170,7 +170,14 @@ class Binding(TypedExpression):
                 prev_content = child
                 continue
             elif child.text and child.type == "attrpath":
-                name = child.text.decode()
+                # Join the attribute tokens: the node text also holds whatever whitespace
+                # or comments sit around the dots, which must not become part of the name.
+                parts = [
+                    part.text.decode()
+                    for part in getattr(child, "named_children", ())
+                    if part.type != "comment" and part.text
+                ]
+                name = ".".join(parts) if parts else child.text.decode()
                 prev_content = child
             elif child.type == "comment":
                 comment = Comment.from_cst(child)
